@@ -558,13 +558,24 @@ _COMMENT_ATOM = re.compile(r"\(comment ([^ ()]+)\)")
 _TAGWORDS = re.compile(r"^(:[^ \t\n\x0c\r:]+)+:$")
 
 
-def defect_class(rec):
-    """decidable class predicates of the recorded round-trip defects, evaluated on the parsed tree"""
-    if "(post ~ " in rec:
+# white space in Rust's sense (char::is_whitespace) that the parser's space0/space1 do NOT skip: everything except blank and
+# tab (LF / CR end lines).  The recorded defects F27 / F28 are exactly about such characters (Lean: `asciiSpaceOnly`).
+_WS_OTHER = "\x0b\x0c\x85\xa0\u1680\u2000\u2001\u2002\u2003\u2004\u2005\u2006\u2007\u2008\u2009\u200a\u2028\u2029\u202f\u205f\u3000"
+_WS_OTHER_RE = "[" + _WS_OTHER + "]"
+_F28_LINE = re.compile(r"(?m)^[ \t]+[ \t" + _WS_OTHER + r"]*" + _WS_OTHER_RE + r"[ \t" + _WS_OTHER + r"]*\r?$")
+
+
+def defect_class(rec, text=None):
+    """decidable class predicates of the recorded round-trip defects: the symptom in the parsed tree AND its recorded
+    cause in the text (a white-space character other than blank/tab right where the finding says), so that a different
+    defect with the same symptom is still reported"""
+    if "(post ~ " in rec and (text is None or _F28_LINE.search(text)):
         return "F28"
     for m in _COMMENT_ATOM.finditer(rec):
-        if _TAGWORDS.match(dec(m.group(1))):
-            return "F27"
+        c = dec(m.group(1))
+        if _TAGWORDS.match(c):
+            if text is None or re.search(re.escape(c) + r"[ \t]*" + _WS_OTHER_RE, text):
+                return "F27"
     return None
 
 
@@ -801,7 +812,7 @@ def run(chk):
             else:
                 chk.count("unrecorded-candidate-reproduces:" + fid)
         elif fails:
-            fid = defect_class(iparse[i])
+            fid = defect_class(iparse[i], t)
             st = all_findings.get(fid, {}).get("status") if fid else None
             if fid and st == "known":
                 chk.count("known-class:" + fid)
@@ -814,7 +825,7 @@ def run(chk):
                 for summary, extra in fails:
                     chk.oracle_failures += 1
                     chk.violation(summary, dict(base, **extra))
-        if bad and not special and defect_class(iparse[i]) is None:
+        if bad and not special and defect_class(iparse[i], t) is None:
             continue
         # ---- correspondence: model vs implementation
         if iparse[i] != mparse[i]:
